@@ -3,6 +3,7 @@
 -/
 import Pakhi.Lemmas.Collect
 import Pakhi.Lemmas.MarkFuel
+import Pakhi.Lemmas.HeapBound
 
 namespace Pakhi
 namespace C08
@@ -129,6 +130,42 @@ example : usedLists { lists := [[], [.nil], []], freeLists := [2, 0], records :=
 /-- every collection terminates within the model's fuel bound, for every heap and every set of scopes -/
 theorem collection_terminates (scopes : List Scope) (h : Heap) : collect scopes h ≠ .fuel :=
   collect_never_out_of_fuel scopes h
+
+/-- **one statement, whatever it is and whatever it calls**: slots in use grow by at most the allocation units it spends, and
+    an arena grows only when it has no free slot left (reuse before growth, lifted from single allocations to the whole
+    evaluator: `hbInv`, all ten mutually recursive functions, no hypothesis) -/
+theorem statement_reuses_before_growing (prog : List Stmt) (f : Nat) (cur cur' : List Stmt) (s s' : St)
+    (h : exec prog f cur s = .ok (cur', s')) : HB s.heap s'.heap := by
+  have := (hbInv prog f).exec cur s
+  rw [h] at this; exact this
+
+/-- spelled out for the list arena: after the statement the arena is no larger than before unless every slot is in use,
+    and the slots in use grew by at most the units spent -/
+theorem statement_arena_bound (prog : List Stmt) (f : Nat) (cur cur' : List Stmt) (s s' : St)
+    (h : exec prog f cur s = .ok (cur', s')) (n0 : Int) (h0 : (s.heap.lists.length : Int) ≤ max n0 (usedL s.heap)) :
+    (s'.heap.lists.length : Int) ≤ max n0 (usedL s'.heap) ∧
+    usedL s'.heap + s.heap.allocCount ≤ usedL s.heap + s'.heap.allocCount :=
+  ⟨(statement_reuses_before_growing prog f cur cur' s s' h).capL n0 h0, (statement_reuses_before_growing prog f cur cur' s s' h).usedL⟩
+
+/-- a whole collection-free run -/
+theorem collection_free_run_bounded (prog : List Stmt) (f k : Nat) (cur : List Stmt) (s s' : St)
+    (h : runLoop prog .never f k cur s = .ok s') : HB s.heap s'.heap := runLoop_never_hb prog f k cur s s' h
+
+/-- **the heap stays bounded over a whole run under the native trigger**, however many statements it executes: if (under
+    some invariant `J` of the run) one top-level statement spends at most `A` allocation units and at most `L` slots per arena
+    are in use right after a collection, no arena ever holds more than `L + gcThreshold + A` slots.  (`A` and `L` are properties of
+    the program — its largest statement and its live data —, not of the number of iterations.) -/
+theorem heap_bounded_whole_run (prog : List Stmt) (J : St → Prop) (L A : Nat)
+    (hstep : ∀ f cur s cur' s', J s → exec prog f cur s = .ok (cur', s') → J s' ∧ s'.heap.allocCount ≤ s.heap.allocCount + A)
+    (hgc : ∀ s h', J s → collect s.scopes s.heap = .ok h' →
+      J { s with heap := h', gcCount := s.gcCount + 1 } ∧ usedL h' ≤ L ∧ usedR h' ≤ L)
+    (w : World) (hJ0 : J (St.init w)) (f : Nat) (s' : St) (h : runLoop prog .native f 0 prog (St.init w) = .ok s') :
+    s'.heap.lists.length ≤ L + gcThreshold + A ∧ s'.heap.records.length ≤ L + gcThreshold + A := by
+  have := native_run_bounded prog J L A (L + gcThreshold + A) (Nat.le_refl _) hstep hgc f 0 prog (St.init w) s' hJ0 (bnd_init w L _) h
+  exact ⟨this.lenL, this.lenR⟩
+
+/-- non-vacuity: one allocation into a heap with a free slot is an instance of `HB` that does not grow the arena -/
+example : ((({ lists := [[], [.nil]], freeLists := [0], records := [], freeRecords := [], allocCount := 0 } : Heap).allocList [.nil]).2).lists.length = 2 := by decide
 
 end C08
 end Pakhi
